@@ -149,7 +149,8 @@ CHECKS = {
               "validated against Hashes.tla (FastHash64(key, row) % width) for random keys x rows 0..7 x widths {4,16,32,128}; if it "
               "holds the rows are FastHash64 under distinct seeds.  This stage never alarms alone; the deciding stage is a tolerant "
               "acceptance test evaluated by TLC on recorded data: joint column counts of every pair of rows within [1/2, 2] of "
-              "expectation and a Zipf stream inside the documented exp(-depth) bound."),
+              "expectation (width 4 at depths 3..8, and 256x16, 16x32, 65536x8, 1024x12 sketches on the low and high column bits, i.e. "
+              "beyond 64 hash bits per key) and a Zipf stream inside the documented exp(-depth) bound."),
         note="a statistical acceptance test (>= 8 sigma margins) wrapped around an exact mechanism check; independence of FastHash64 under distinct seeds is an external fact",
         technique="trace validation of the placement equation against the TLA+ hash specification; tolerant counting predicate evaluated by TLC"),
     "C16": dict(
